@@ -1,32 +1,38 @@
 #!/venv/bin/python
-"""Sensitivity self-test: apply each catalogued mutant to /repo's working
-tree, run the property's check, expect exit 1, undo.  Never commits.
-usage: mutants.py [id-substring ...]   (run only while nothing else uses /repo)"""
-import json, os, subprocess, sys
+"""Sensitivity self-test: each catalogued mutant is applied to a scratch
+git worktree of /repo (under /dev/shm, removed afterwards), the property's
+check is run against that worktree (VERIF_REPO), and must exit 1.
+usage: mutants.py [id-substring ...]"""
+import json, os, subprocess, sys, tempfile, shutil
 ROOT = os.path.dirname(os.path.dirname(os.path.abspath(__file__)))
 cat = json.load(open(os.path.join(ROOT, "mutants", "catalogue.json")))
 want = sys.argv[1:]
-dirty = subprocess.run(["git", "-C", "/repo", "status", "--porcelain"], capture_output=True, text=True).stdout.strip()
-if dirty:
-    print("refusing: /repo working tree is not clean"); sys.exit(2)
+wt = tempfile.mkdtemp(prefix="mutwt_", dir="/dev/shm")
+os.rmdir(wt)
+subprocess.run(["git", "-C", "/repo", "worktree", "add", "--detach", "-q", wt, "HEAD"], check=True)
 results = []
-for m in cat:
-    if want and not any(w in m["id"] for w in want):
-        continue
-    path = os.path.join("/repo", m["file"])
-    src = open(path).read()
-    if m["old"] not in src:
-        print(m["id"], "PATTERN-NOT-FOUND"); results.append((m["id"], "stale")); continue
-    try:
-        open(path, "w").write(src.replace(m["old"], m["new"], 1))
-        cmd = [os.path.join(ROOT, "vcheck"), m["property"], "--no-evidence"] + m.get("args", [])
-        proc = subprocess.run(cmd, capture_output=True, text=True, cwd=ROOT, timeout=1800)
-        vio = [l for l in proc.stdout.splitlines() if l.startswith("VIOLATION") or l.strip().startswith("class=")]
-        verdict = "CAUGHT" if proc.returncode == 1 else f"MISSED(exit {proc.returncode})"
-        print(m["id"], verdict, "; ".join(v.strip() for v in vio[:2]))
-        if proc.returncode not in (0, 1):
-            print(proc.stdout[-1500:])
-        results.append((m["id"], verdict))
-    finally:
-        subprocess.run(["git", "-C", "/repo", "checkout", "--", m["file"]], check=True)
+try:
+    for m in cat:
+        if want and not any(w in m["id"] for w in want):
+            continue
+        path = os.path.join(wt, m["file"])
+        src = open(path).read()
+        if m["old"] not in src:
+            print(m["id"], "PATTERN-NOT-FOUND"); results.append((m["id"], "stale")); continue
+        try:
+            open(path, "w").write(src.replace(m["old"], m["new"], 1))
+            cmd = [os.path.join(ROOT, "vcheck"), m["property"], "--no-evidence"] + m.get("args", [])
+            env = dict(os.environ, VERIF_REPO=wt)
+            proc = subprocess.run(cmd, capture_output=True, text=True, cwd=ROOT, timeout=3000, env=env)
+            vio = [l for l in proc.stdout.splitlines() if l.startswith("VIOLATION") or l.strip().startswith("class=")]
+            verdict = "CAUGHT" if proc.returncode == 1 else f"MISSED(exit {proc.returncode})"
+            print(m["id"], verdict, "; ".join(v.strip() for v in vio[:2]), flush=True)
+            if proc.returncode not in (0, 1):
+                print(proc.stdout[-1500:], proc.stderr[-500:])
+            results.append((m["id"], verdict))
+        finally:
+            open(path, "w").write(src)
+finally:
+    subprocess.run(["git", "-C", "/repo", "worktree", "remove", "--force", wt])
+    shutil.rmtree(wt, ignore_errors=True)
 print(sum(1 for r in results if r[1] == "CAUGHT"), "of", len(results), "caught")
